@@ -113,6 +113,18 @@ CHECKS = {
               'Exhaustive over all shapes with <=4 levels and <=6 leaves in '
               'the thorough tier, sampled beyond.',
               'DESIGN.md section 2 C10', _BASE_NOTE),
+    'C11': _e('exploration',
+              'reference-model monitor: the real marker finders (direct and '
+              'p-value-mask routes) judged per (pair, gene) by an oracle '
+              'built from the raw cells (scipy Welch on per-cell log2CPM, '
+              'own Holm step-down, penetrances as exact fractions): '
+              'soundness of every recorded marker, completeness for every '
+              'strictly qualifying gene, direction, pair-major / gene-major '
+              'transpose structure; metamorphic renaming; differential over '
+              'worker count and memory budget',
+              'Thousands of (pair, gene) decisions per run; don\'t-care '
+              'bands counted.',
+              'DESIGN.md section 2 C11', _BASE_NOTE),
     'C13': _e('exploration',
               'reference-model monitor: real on-disk transposition '
               'routines (serial, sliced, value-less, parallel with 1-4 '
